@@ -600,3 +600,6 @@ V("c06b-preserving-equivalent-binomial", "C06", "silent",
 V("c06a-preserving-renamed-accumulator", "C06", "silent",
   (INDICES, "def get_index_in_fock_space(element):\n    sum_ = 0\n    accumulator = 0\n    for i in range(len(element)):\n        sum_ += element[-1 - i]\n        accumulator += comb(sum_ + i, i + 1)\n\n    return accumulator\n",
    "def get_index_in_fock_space(element):\n    sum_ = 0\n    accumulator = 0\n    for i in range(len(element)):\n        sum_ += element[-1 - i]\n        accumulator += comb(sum_ + i, i + 1)\n\n    # the position of `element` in the basis\n    return accumulator\n"))
+V("c06a-rewritten-twin-is-undecided-not-violation", "C06", {"exit": 2},
+  (INDICES, "def get_index_in_fock_space_array(basis: np.ndarray) -> np.ndarray:\n    sum_ = np.zeros(shape=basis.shape[:-1], dtype=np.int32)\n    accumulator = np.zeros(shape=basis.shape[:-1], dtype=np.int32)\n\n    for i in range(basis.shape[-1]):\n        sum_ += basis[..., -1 - i]\n        accumulator += arr_comb(sum_ + i, i + 1)\n\n    return accumulator\n",
+   "def get_index_in_fock_space_array(basis: np.ndarray) -> np.ndarray:\n    sums = np.cumsum(basis[..., ::-1], axis=-1)\n    accumulator = np.zeros(shape=basis.shape[:-1], dtype=np.int32)\n\n    for i in range(basis.shape[-1]):\n        accumulator += arr_comb(sums[..., i] + i, i + 1)\n\n    return accumulator\n"))
